@@ -9,6 +9,7 @@
 -/
 import Whawty.Gen.Scan
 import Whawty.Model.Sasl
+import Whawty.Lemmas.Sasl
 namespace Whawty.Gen.Tie
 open Whawty Whawty.Gen Whawty.Sasl
 
@@ -74,11 +75,52 @@ theorem scan_is_source :
       List.take_succ_cons, List.take_zero, List.drop_succ_cons, Nat.sub_zero, hb]
     generalize be16val hi lo = n
     have e3 : ((↑n : Int) + 2).toNat = n + 2 := by omega
-    simp only [e3]
+    have e3' : ((2 : Int) + ↑n).toNat = n + 2 := by omega
+    try simp only [e3, e3']
     cases atEOF <;>
-      simp only [Bool.true_and, Bool.false_and, Bool.false_eq_true, if_false, if_true, decide_eq_true_eq] <;>
+      simp only [Bool.true_and, Bool.false_and, Bool.and_true, Bool.and_false, Bool.true_or, Bool.false_or,
+        Bool.or_true, Bool.or_false, Bool.not_true, Bool.not_false, Bool.false_eq_true, if_false, if_true,
+        decide_eq_true_eq] <;>
       (repeat' split) <;>
       (first | rfl | omega | (subst_vars; simp; done) | (simp_all; done) | (simp_all; omega))
 
+
+/-- About the source's split function itself: an announced length above `MaxRequestLength` is an
+    error whatever else is buffered and whether or not the stream has ended. -/
+theorem source_scan_overlimit (f : Bytes → Bool → Int × Option Bytes × Bool)
+    (hf : scanLengthEncodedString = some f) (hi lo : Byte) (rest : Bytes) (e : Bool)
+    (h : be16val hi lo > 256) : f (hi :: lo :: rest) e = (0, none, true) := by
+  have hs := scan_is_source
+  rw [hf] at hs
+  injection hs with hs
+  rw [hs]
+  simp only [goView_scan, h, if_true]
+
+/-- … a token it returns is a prefix of the buffer: the two length bytes and exactly the announced
+    number of payload bytes; it never returns a token and an error together. -/
+theorem source_scan_token (f : Bytes → Bool → Int × Option Bytes × Bool)
+    (hf : scanLengthEncodedString = some f) (data : Bytes) (e : Bool) (adv : Int) (tok : Bytes) (err : Bool)
+    (h : f data e = (adv, some tok, err)) :
+    err = false ∧ ∃ hi lo rest, data = hi :: lo :: rest ∧ adv = (be16val hi lo + 2 : Nat) ∧
+      be16val hi lo ≤ 256 ∧ be16val hi lo ≤ rest.length ∧ tok = data.take (be16val hi lo + 2) := by
+  have hs := scan_is_source
+  rw [hf] at hs
+  injection hs with hs
+  rw [hs] at h
+  simp only [] at h
+  match data, h with
+  | [], h => cases e <;> simp [scan, goView] at h
+  | [_], h => cases e <;> simp [scan, goView] at h
+  | hi :: lo :: rest, h =>
+    rw [goView_scan] at h
+    split at h
+    · simp at h
+    · rename_i h1
+      split at h
+      · split at h <;> simp at h
+      · rename_i h2
+        simp only [Prod.mk.injEq, Option.some.injEq] at h
+        obtain ⟨ha, ht, he⟩ := h
+        exact ⟨he.symm, hi, lo, rest, rfl, ha.symm, by omega, by omega, ht.symm⟩
 
 end Whawty.Gen.Tie
